@@ -60,7 +60,12 @@ class C05Leaf(pg.Object):
   x: typing.Any
 
   class Inner:            # a nested plain class (type round trip).
-    pass
+
+    def __eq__(self, other):
+      return type(other) is type(self)
+
+    def __hash__(self):
+      return 7
 
   @classmethod
   def make(cls, x):
@@ -127,6 +132,12 @@ def _is_fn(x):
   return isinstance(x, (type(c05_double), type(len), type(C05Leaf.make)))
 
 
+# Defaults held by a class schema are stored in symbolic form while a restored
+# spec holds the plain container (they are converted on apply): when comparing
+# spec *attributes* list/pg.List and dict/pg.Dict are interchangeable.
+_LOOSE = [False]
+
+
 def diff_value(a, b, path='', top=True, check_spec=True):
   """Returns '' if b is an exact reproduction of a, else a description."""
   # plain containers come back as their symbolic counterparts.
@@ -153,7 +164,7 @@ def diff_value(a, b, path='', top=True, check_spec=True):
         return d
     return ''
   if isinstance(a, list):
-    if isinstance(a, pg.List) and not isinstance(b, pg.List):
+    if isinstance(a, pg.List) and not isinstance(b, pg.List) and not _LOOSE[0]:
       return f'{path}: pg.List became {type(b).__name__}'
     if not isinstance(b, list):
       return f'{path}: list became {type(b).__name__} {b!r}'
@@ -170,7 +181,7 @@ def diff_value(a, b, path='', top=True, check_spec=True):
       return f'{path}: value_spec {a.value_spec!r} -> {b.value_spec!r}'
     return ''
   if isinstance(a, dict):
-    if isinstance(a, pg.Dict) and not isinstance(b, pg.Dict):
+    if isinstance(a, pg.Dict) and not isinstance(b, pg.Dict) and not _LOOSE[0]:
       return f'{path}: pg.Dict became {type(b).__name__}'
     if not isinstance(b, dict):
       return f'{path}: dict became {type(b).__name__} {b!r}'
@@ -950,8 +961,9 @@ SPEC_WRAPPERS = [
     ('nested-spec', 'T.Union([T.Type(C05Pair), {s}]) if not isinstance({s}, (T.Type, T.Union, T.Any)) else T.List({s})'),
 ]
 
+EMPTY_SCHEMA = 'spec/schema-without-fields'
+
 SCHEMAS = [
-    "T.Schema([], name='empty')",
     "T.Schema([T.Field(T.StrKey(), T.Any())], allow_nonconst_keys=True)",
     "T.Schema([T.Field('a', T.Int())], metadata={'k': [1, {'x': (1, 2)}]})",
     "T.Schema([T.Field('a', T.Int())], description='line1\\nline2 \\u2028')",
@@ -982,14 +994,18 @@ _SPEC_ATTRS = ['default', 'has_default', 'is_noneable', 'frozen', 'value_type',
                'candidates', 'annotation', 'transform', 'schema']
 
 
-def _spec_behaviour_diff(s, r):
+def _spec_behaviour_diff(s, r, partial_modes=(False, True)):
   if isinstance(s, pg.typing.ValueSpec):
     for name in _SPEC_ATTRS:
       a, b = outcome(getattr, s, name), outcome(getattr, r, name)
       if a[0] != b[0]:
         return f'attribute {name}: {a} -> {b}'
       if a[0] == 'ok':
-        d = diff_value(a[1], b[1])
+        _LOOSE[0] = True
+        try:
+          d = diff_value(a[1], b[1])
+        finally:
+          _LOOSE[0] = False
         if d:
           return f'attribute {name}{d}'
     ra = getattr(getattr(s, 'regex', None), 'pattern', None)
@@ -1004,7 +1020,7 @@ def _spec_behaviour_diff(s, r):
         return f'elements {s.elements!r} -> {r.elements!r}'
     if not (s.is_compatible(r) and r.is_compatible(s)):
       return 'restored spec is not mutually compatible with the original'
-    for allow_partial in (False, True):
+    for allow_partial in partial_modes:
       for mk in SPEC_PROBES:
         a = outcome(s.apply, mk(), allow_partial=allow_partial)
         b = outcome(r.apply, mk(), allow_partial=allow_partial)
@@ -1019,7 +1035,7 @@ def _spec_behaviour_diff(s, r):
       d = diff_value(getattr(s, name), getattr(r, name))
       if d:
         return f'field.{name}{d}'
-    return _spec_behaviour_diff(s.value, r.value)
+    return _spec_behaviour_diff(s.value, r.value, partial_modes)
   elif isinstance(s, pg.typing.Schema):
     for name in ('name', 'description', 'allow_nonconst_keys', 'metadata'):
       d = diff_value(getattr(s, name), getattr(r, name))
@@ -1028,10 +1044,10 @@ def _spec_behaviour_diff(s, r):
     if list(s.keys()) != list(r.keys()):
       return f'schema keys {list(s.keys())} -> {list(r.keys())}'
     for k in s.keys():
-      d = _spec_behaviour_diff(s[k], r[k])
+      d = _spec_behaviour_diff(s[k], r[k], partial_modes)
       if d:
         return f'field {k!r}: {d}'
-    for allow_partial in (False, True):
+    for allow_partial in partial_modes:
       for mk in SPEC_PROBES:
         p = mk()
         if isinstance(p, dict) and not isinstance(p, pg.Dict):
@@ -1065,9 +1081,12 @@ def spec_universe(tier, seed):
     out.append(('spec/key-spec', s))
   for s in SCHEMAS:
     out.append(('spec/schema', s))
+  for s in ["T.Schema([], name='empty')", 'T.Schema([])',
+            "T.Dict(T.Schema([], name='e'))", "T.Field('a', T.Dict(T.Schema([])))"]:
+    out.append((EMPTY_SCHEMA, s))
   r = rng(seed, 'c05-specs')
   for wn, wf in SPEC_WRAPPERS:
-    pool = SPECS if tier == 'thorough' else r.sample(SPECS, 22) + [
+    pool = SPECS if tier == 'thorough' else r.sample(SPECS, 9) + [
         x for x in SPECS if '/' in x[0]]
     for tag, s in pool:
       out.append((tag if '/' in tag else f'spec/{wn}', wf.format(s=s)))
@@ -1080,17 +1099,18 @@ def drv_specs(tier, seed):
       scope=f'{len(SPECS)} value specs covering every constructor argument of every spec class '
             '(default/no default/noneable/frozen/bounds/sizes/regex/transform/nested), '
             f'{len(KEY_SPECS)} key specs, {len(SCHEMAS)} schemas incl. class schemas, specs wrapped in '
-            'Field/Schema/List/Tuple/Dict/Union (quick: seeded 22 per wrapper, thorough: all); forms obj/str; '
+            'Field/Schema/List/Tuple/Dict/Union (quick: seeded 9 per wrapper, thorough: all); forms obj/str; '
             'oracle: ==, type, repr, every public attribute, apply() on 58 probe values x allow_partial '
             'differential (original vs restored), is_compatible both ways')
   for label, src in spec_universe(tier, seed):
-    special = label if label in (NO_DEFAULT_ENUM, EMPTY_TUPLE) else None
+    special = label if label in (NO_DEFAULT_ENUM, EMPTY_TUPLE, EMPTY_SCHEMA) else None
+    modes = (False, True) if tier == 'thorough' else (False,)
     for form in ('obj', 'str'):
       ok, r = record_json(rec, label, src, form, cid=special or f'{label}/{form}')
       if not ok:
         continue
       s = ev(src)
-      d = outcome(_spec_behaviour_diff, s, r)
+      d = outcome(_spec_behaviour_diff, s, r, modes)
       good = d == ('ok', '')
       if good and '__schema__' not in src and repr(s) != repr(r):
         good, d = False, ('ok', f'repr {s!r} -> {r!r}')
@@ -1098,4 +1118,215 @@ def drv_specs(tier, seed):
               else 'pg.from_json_str(pg.to_json_str(v))')
       rec.case(special or f'{label}-behaviour', (src, form), good, f'{d[1]}',
                f'{_header(src + "C05")}v = {src}\nr = {conv}\nassert_same_spec(v, r)\n')
+  return rec.result()
+
+
+# -----------------------------------------------------------------------------
+# Search-space specs (pg.geno) and DNA.
+# -----------------------------------------------------------------------------
+
+G = 'pg.geno.'
+GENO_POINTS = [
+    G + 'floatv(0.0, 1.0)', G + "floatv(-1.5, 2.5, name='f')",
+    G + "floatv(1e-5, 1.0, scale='log')", G + "floatv(0.5, 1.0, scale='linear')",
+    G + "floatv(0.5, 2.0, scale='rlog', hints='h')",
+    G + "floatv(0.0, 1.0, hints={'a': [1, (2,)]}, location=pg.KeyPath.parse('a.b[0]'))",
+    G + 'floatv(2.0, 2.0)', G + "floatv(0.0, float('inf'))",
+    G + 'custom()', G + "custom('ht')", G + "custom(hints=[1, 'x'], name='c')",
+    G + f'oneof([{G}constant()])', G + f'oneof([{G}constant(), {G}constant()])',
+    G + f"oneof([{G}constant(), {G}constant(), {G}constant()], literal_values=['a', 1, 2.5], name='o')",
+    G + f"oneof([{G}constant(), {G}constant()], hints='hh', location=pg.KeyPath.parse('x[1].y'))",
+    G + f'manyof(2, [{G}constant(), {G}constant(), {G}constant()])',
+    G + f'manyof(2, [{G}constant(), {G}constant(), {G}constant()], distinct=False)',
+    G + f'manyof(2, [{G}constant(), {G}constant(), {G}constant()], sorted=True)',
+    G + f"manyof(3, [{G}constant(), {G}constant(), {G}constant()], distinct=False, sorted=True, literal_values=[0, 1, 2], name='m')",
+]
+GENO_COMBINE = [
+    lambda x, y: G + f'space([{x}])',
+    lambda x, y: G + f'space([{x}, {y}])',
+    lambda x, y: G + f'oneof([{G}constant(), {x}])',
+    lambda x, y: G + f'oneof([{G}space([{x}, {y}]), {G}constant(), {y}])',
+    lambda x, y: G + f'manyof(2, [{x}, {G}constant(), {y}])',
+]
+GENO_FROM_HYPER = [
+    "pg.dna_spec(pg.Dict(x=pg.oneof([1, pg.oneof(['a', 'b'])]), y=pg.floatv(0.0, 1.0), "
+    "z=pg.manyof(2, [1, 2, 3])))",
+    "pg.dna_spec(pg.Dict(w=pg.oneof([C05Leaf(pg.oneof([1, 2])), 3], name='w'), "
+    "v=[pg.floatv(0.1, 1.0, scale='log', name='lr')]))",
+    'pg.dna_spec(C05Leaf(pg.manyof(2, [C05Leaf(pg.oneof([1, 2])), 2, 3], distinct=False)))',
+    'pg.dna_spec(pg.Dict(a=1))', G + 'space([])', G + 'constant()',
+]
+HYPER_VALUES = [
+    "pg.oneof([1, 'a', C05Leaf(2)])", 'pg.manyof(2, [1, 2, 3], distinct=False)',
+    "pg.floatv(0.0, 1.0, scale='log')", "pg.Dict(x=pg.oneof([1, 2], name='n'))",
+    'C05Leaf(pg.oneof([C05Leaf(pg.floatv(0., 1.)), (1, 2)]))',
+    "pg.oneof([[1, 2], {'a': 1}], hints='h')", 'pg.permutate([1, 2, 3])',
+    'pg.sublist_of(2, [1, 2, 3], choices_sorted=True)',
+]
+
+DNA_SHAPES = [
+    ('leaf', 'pg.DNA(None)'), ('leaf', 'pg.DNA(0)'), ('leaf', 'pg.DNA(1)'),
+    ('leaf', 'pg.DNA(0.5)'), ('leaf', "pg.DNA('abc')"), ('leaf', "pg.DNA('')"),
+    ('leaf', "pg.DNA(float('inf'))"), ('leaf', 'pg.DNA(-0.0)'), ('leaf', 'pg.DNA(5e-324)'),
+    ('leaf', 'pg.DNA(10**20)'), ('leaf', "pg.DNA('__tuple__')"), ('leaf', "pg.DNA('n_:5')"),
+    ('leaf', r"pg.DNA('\n\x00 ')"), ('leaf', "pg.DNA('_type')"),
+    ('nested', 'pg.DNA([0, 1])'), ('nested', 'pg.DNA((0, 1))'), ('nested', 'pg.DNA((0, 1, 2))'),
+    ('nested', 'pg.DNA((1, [2, 3]))'), ('nested', 'pg.DNA([(1, [2, (3, 4)]), 0.1])'),
+    ('nested', "pg.DNA([0, 'x', 0.5])"), ('nested', "pg.DNA(['a', '__tuple__'])"),
+    ('nested', 'pg.DNA([[0, 1], [2, [3, 4]]])'), ('nested', 'pg.DNA((0, (1, [2, 3])))'),
+    ('nested', 'pg.DNA(1, [pg.DNA(2, [pg.DNA(3), pg.DNA(4)])])'),
+    ('nested', 'pg.DNA(None, [pg.DNA(None, [pg.DNA(1)])])'),
+    ('nested', "pg.DNA([(0, 'abc'), (1, 0.25, 2)])"),
+    ('metadata', "pg.DNA(1, metadata={'a': 1})"),
+    ('metadata', "pg.DNA([0, 1], metadata={'k': [1, (2,)], 'z': {'y': None}})"),
+    ('metadata', "pg.DNA(1).set_metadata('k', 1, cloneable=True).set_metadata('n', 2)"),
+    ('metadata', "pg.DNA([0, (1, 2)]).set_metadata('k', C05Leaf(1), cloneable=True)"),
+    ('metadata', "pg.DNA(0.5, metadata={'n_:5': 2, 3: 4})"),
+    ('dna/child-metadata', 'pg.DNA(None, [pg.DNA(1, metadata=dict(a=1)), pg.DNA(2)])'),
+    ('dna/child-metadata', "pg.DNA(0, [pg.DNA(1, metadata={'reward': 0.5})])"),
+    ('json/list-starting-with-tuple-marker', "pg.DNA(['__tuple__', 'a'])"),
+    ('json/list-starting-with-tuple-marker', "pg.DNA(['__tuple__', 0, 1])"),
+]
+
+
+def _lit(x):
+  if isinstance(x, float) and (math.isinf(x) or math.isnan(x)):
+    return f"float('{x!r}')"
+  return repr(x)
+
+
+def dna_src(d):
+  kids = ', '.join(dna_src(c) for c in d.children)
+  return f'pg.DNA({_lit(d.value)}, [{kids}])' if kids else f'pg.DNA({_lit(d.value)})'
+
+
+def geno_universe(tier, seed):
+  r = rng(seed, 'c05-geno')
+  lvl1 = list(GENO_POINTS)
+  lvl2 = []
+  for x in lvl1:
+    for f in GENO_COMBINE:
+      lvl2.append(f(x, r.choice(lvl1)))
+  n3 = 400 if tier == 'thorough' else 25
+  lvl3 = []
+  for _ in range(n3):
+    lvl3.append(r.choice(GENO_COMBINE)(r.choice(lvl2), r.choice(lvl1 + lvl2)))
+  if tier != 'thorough':
+    lvl2 = r.sample(lvl2, 35)
+  out = [('geno/point', s) for s in lvl1]
+  out += [('geno/depth2', s) for s in lvl2] + [('geno/depth3', s) for s in lvl3]
+  out += [('geno/from-hyper', s) for s in GENO_FROM_HYPER]
+  good = []
+  for label, s in out:
+    try:
+      ev(s)
+      good.append((label, s))
+    except Exception:  # duplicated names etc.: not a constructible spec.  pylint: disable=broad-except
+      pass
+  return good
+
+
+def _spec_observations(spec):
+  import random  # pylint: disable=g-import-not-at-top
+  obs = dict(
+      n=len(spec), is_space=spec.is_space,
+      ids=[str(dp.id) for dp in spec.decision_points],
+      names=sorted(spec.named_decision_points.keys()),
+      size=outcome(lambda: spec.space_size),
+      first=outcome(lambda: repr(spec.first_dna())),
+      rand=outcome(lambda: repr(spec.random_dna(random.Random(1)))))
+
+  def walk():
+    out, d = [], spec.first_dna()
+    while d is not None and len(out) < 6:
+      out.append(repr(d))
+      d = spec.next_dna(d)
+    return out
+  obs['walk'] = outcome(walk)
+  return obs
+
+
+def sample_dnas(spec, n, r):
+  import random  # pylint: disable=g-import-not-at-top
+  out = []
+  try:
+    d = spec.first_dna()
+    while d is not None and len(out) < n:
+      out.append(d)
+      d = spec.next_dna(d)
+  except Exception:  # float / custom points have no enumeration.  pylint: disable=broad-except
+    pass
+  for i in range(n):
+    try:
+      out.append(spec.random_dna(random.Random(r.randint(0, 10**6) + i)))
+    except Exception:  # pylint: disable=broad-except
+      break
+  return out
+
+
+def drv_geno_dna(tier, seed):
+  rec = Recorder(
+      'C05', 'pg.geno search-space specs, hyper values and DNA: JSON round trip',
+      scope='19 decision points (every argument of floatv/oneof/manyof/custom) x 5 combinators to depth 3 '
+            '(quick: 35 depth-2 + 25 depth-3 seeded; thorough: all depth-2 + 400 depth-3) + specs from '
+            'pg.dna_spec(hyper values); hyper values; DNA: 35 hand-made shapes (leaf types, special floats, '
+            'marker-like strings, nesting, root/child metadata, cloneable keys) + first-N/random DNAs of '
+            'each spec; forms obj/str, compact and compact=False')
+  r = rng(seed, 'c05-dna')
+  specs = geno_universe(tier, seed)
+  ndna = 8 if tier == 'thorough' else 2
+  for n, (label, src) in enumerate(specs):
+    spec_ok = True
+    for form in ('obj', 'str'):
+      ok, back = record_json(rec, label, src, form)
+      spec_ok = spec_ok and ok
+      if ok:
+        a, b = _spec_observations(ev(src)), _spec_observations(back)
+        rec.case(f'{label}-behaviour', (src, form), a == b,
+                 'observations differ: ' + repr({k: (a[k], b[k]) for k in a if a[k] != b[k]}),
+                 f'{_header(src)}v = {src}\nr = pg.from_json_str(pg.to_json_str(v))\n'
+                 f'from {_MOD} import _spec_observations as o\nassert o(v) == o(r), (o(v), o(r))\n')
+    if not spec_ok or (tier != 'thorough' and n % 2):
+      continue
+    spec = ev(src)
+    for d in sample_dnas(spec, ndna, r):
+      dsrc = dna_src(d)
+      for form, kw in (('obj', None), ('str', None), ('str', dict(compact='False'))):
+        ok, back = record_json(rec, 'dna/from-spec' + ('' if not kw else '/non-compact'),
+                               dsrc, form, kw=kw, check_original=False)
+        if ok:
+          def bound(back=back, d=d):
+            spec2 = pg.from_json_str(pg.to_json_str(spec))
+            back.use_spec(spec2)
+            d2 = ev(dsrc)
+            d2.use_spec(spec)
+            return diff_value(d2.to_numbers(), back.to_numbers()) or diff_value(
+                [(str(k), repr(x)) for k, x in d2.to_dict(value_type='value').items()],
+                [(str(k), repr(x)) for k, x in back.to_dict(value_type='value').items()])
+          o = outcome(bound)
+          rec.case('dna/from-spec-rebind-to-restored-spec', (src, dsrc, form),
+                   o == ('ok', ''), f'{o}',
+                   f'{_header(src)}spec = {src}\nd = {dsrc}\nd.use_spec(spec)\n'
+                   'spec2 = pg.from_json_str(pg.to_json_str(spec))\n'
+                   'd2 = pg.from_json_str(pg.to_json_str(d))\nd2.use_spec(spec2)\n'
+                   'assert d2.to_numbers() == d.to_numbers()\n')
+  for src in HYPER_VALUES:
+    for form in ('obj', 'str'):
+      record_json(rec, 'hyper', src, form)
+  for label, src in DNA_SHAPES:
+    for form, kw in (('obj', None), ('str', None), ('obj', dict(compact='False')),
+                     ('str', dict(compact='False'))):
+      cid = label if '/' in label else None
+      ok, back = record_json(rec, f'dna/{label}' + ('' if not kw else '/non-compact'),
+                             src, form, cid=cid, kw=kw)
+      if ok:
+        v = ev(src)
+        same_keys = (getattr(v, '_cloneable_metadata_keys', None) ==
+                     getattr(back, '_cloneable_metadata_keys', None))
+        same_clone = diff_value(v.clone(deep=True), back.clone(deep=True)) == ''
+        rec.case('dna/cloneable-metadata-after-roundtrip', (src, form, repr(kw)),
+                 same_keys and same_clone,
+                 'clone() of the restored DNA keeps different metadata than clone() of the original',
+                 f'{_header(src)}v = {src}\nr = pg.from_json(pg.to_json(v))\n'
+                 'assert pg.eq(v.clone(deep=True).metadata, r.clone(deep=True).metadata)\n')
   return rec.result()
